@@ -15,8 +15,8 @@ text = {k: p[k] for k in ("id", "title", "statement", "quantifier", "why_tests_c
 # later rounds: name the sites earlier independent changes touched (file + hunk header only) so that this one is different
 import glob, re
 avoid = []
-for pd in sorted(glob.glob("/verif/seeded/%s-*/patch.diff" % pid)):
-    if pd.endswith("/%s-%s/patch.diff" % (pid, tag)):
+for pd in sorted(glob.glob("/verif/seeded/%s-*/patch.diff" % pid) + glob.glob("/tmp/seed-%s-*/out/patch.diff" % pid)):
+    if "/%s-%s/" % (pid, tag) in pd:
         continue
     cur = None
     for l in open(pd):
